@@ -82,6 +82,11 @@ def step (x : S) (w : List String) : Option (S × String × List String) :=
     let (s', e) := rollback s c
     if e.isSome then rej x "rollback succeeded in the code but not in the model" else
     some ({ x with st := s' }, "ok", if d ≥ 2 then ["rollback_d2"] else ["rollback"])
+  | ["diff", c, d] => do
+    let c ← c.toNat?; let d ← kv d "d"
+    match diff s c with
+    | some m => if m == d then some (x, "ok", ["diff_concurrent"]) else rej x s!"Diff computed {d}, at that instant the model has {m} (torn read)"
+    | none => rej x "Diff answered for a consumer that is not registered"
   | ["closecons", c] => do
     let c ← c.toNat?
     some ({ x with st := cancelCons s c }, "ok", [])
